@@ -25,7 +25,9 @@ pub(crate) fn decode(src: &[u8], dst: &mut [u8]) -> io::Result<()> {
         .decompress(src, dst, InflateFlush::Finish)
         .map_err(|_| io::Error::from(io::ErrorKind::InvalidData))?;
 
-    if status == Status::StreamEnd {
+    // The stream must end and fill the destination, i.e., inflate to exactly ISIZE bytes. Otherwise,
+    // the rest of the destination holds stale data, which a matching checksum would then vouch for.
+    if status == Status::StreamEnd && decoder.total_out() == dst.len() as u64 {
         Ok(())
     } else {
         Err(io::Error::from(io::ErrorKind::InvalidData))
